@@ -5,6 +5,7 @@ import (
 	"fmt"
 	"io"
 	"math/rand"
+	"os"
 	"reflect"
 	"regexp"
 	"strings"
@@ -492,7 +493,22 @@ func c06Key(cs c06Case, method, kind, class string) string {
 
 func init() {
 	core.Register("C06", func(c *core.Ctx) {
-		c06SpecLeg(c)
+		// VERIF_C06_LEGS=K,G,Gm restricts the run to the named legs (a debugging aid; unset = all legs)
+		want := func(name string) bool {
+			only := os.Getenv("VERIF_C06_LEGS")
+			if only == "" {
+				return true
+			}
+			for _, n := range strings.Split(only, ",") {
+				if n == name {
+					return true
+				}
+			}
+			return false
+		}
+		if want("Q") {
+			c06SpecLeg(c)
+		}
 		bs := func(s string) []int {
 			out := make([]int, len(s))
 			for i := 0; i < len(s); i++ {
@@ -528,15 +544,22 @@ func init() {
 			// carried as a known finding: regexp folds \w before negating, regexp2 folds the negated class
 			probe("fold-negated-perl-class", `(?i)\W`, "k"),
 		}
-		core.RunLeg(c, core.Leg[c06Case]{
-			Name: "K", Kind: "oracle",
-			Rule:   "fixed minimal inputs, one per known class of divergence between compat (RE2 option alone) and regexp; same comparison as leg G; a class that agrees again is counted as such",
-			Corpus: probes, N: 0, Gen: c06GenCase, Check: c06Check,
-		})
-		core.RunLeg(c, core.Leg[c06Case]{
-			Name: "G", Kind: "correspondence+oracle",
-			Rule:   "patterns printed from random ASTs over literals (incl. escapes \\x41 \\x{e9}), classes ([ab] [^a] ranges, POSIX [[:alpha:]] …, \\d \\w \\s and negations, \\pL, .), anchors ^ $ \\A \\z \\b \\B, alternation with empty branches, capturing / named (?P<n>) / non-capturing / flag groups (?i: ?s: ?m: ?-s:), greedy and lazy * + ? {m} {m,n} {m,} applied only to non-nullable atoms, optional leading (?i)/(?s)/(?m); inputs of 0-13 items over ASCII, multi-byte (é É 日 😀 U+212A U+017F U+00A0 U+FFFD) and invalid UTF-8 pieces (\\xff, truncated and overlong sequences, surrogate, > U+10FFFF); n in {-1,0,1,2,3}; patterns either engine rejects are skipped and counted. non-trivial = regexp finds a match; distinct by (pattern, input). Oracle: all 21 methods of compat.Matcher (8 find-all methods x 5 n) on compat.Compile(p, RE2) vs regexp.Compile(p), reflect.DeepEqual incl. nil-ness; regexp2's single-position attempt at every rune position vs regexp's \\A(?s:.{p})(P). Correspondence: Lean compatForEach, findAll, stdAll over that table vs compat.FindAllStringSubmatchIndex, compat.FindAllStringIndex, regexp.FindAllStringIndex",
-			Corpus: corpus, N: c.N(3000, 100000), Gen: c06GenCase, Check: c06Check, Batch: 1000,
-		})
+		if want("K") {
+			core.RunLeg(c, core.Leg[c06Case]{
+				Name: "K", Kind: "oracle",
+				Rule:   "fixed minimal inputs, one per known class of divergence between compat (RE2 option alone) and regexp; same comparison as leg G; a class that agrees again is counted as such",
+				Corpus: probes, N: 0, Gen: c06GenCase, Check: c06Check,
+			})
+		}
+		if want("G") {
+			core.RunLeg(c, core.Leg[c06Case]{
+				Name: "G", Kind: "correspondence+oracle",
+				Rule:   "patterns printed from random ASTs over literals (incl. escapes \\x41 \\x{e9}), classes ([ab] [^a] ranges, POSIX [[:alpha:]] …, \\d \\w \\s and negations, \\pL, .), anchors ^ $ \\A \\z \\b \\B, alternation with empty branches, capturing / named (?P<n>) / non-capturing / flag groups (?i: ?s: ?m: ?-s:), greedy and lazy * + ? {m} {m,n} {m,} applied only to non-nullable atoms, optional leading (?i)/(?s)/(?m); inputs of 0-13 items over ASCII, multi-byte (é É 日 😀 U+212A U+017F U+00A0 U+FFFD) and invalid UTF-8 pieces (\\xff, truncated and overlong sequences, surrogate, > U+10FFFF); n in {-1,0,1,2,3}; patterns either engine rejects are skipped and counted. non-trivial = regexp finds a match; distinct by (pattern, input). Oracle: all 21 methods of compat.Matcher (8 find-all methods x 5 n) on compat.Compile(p, RE2) vs regexp.Compile(p), reflect.DeepEqual incl. nil-ness; regexp2's single-position attempt at every rune position vs regexp's \\A(?s:.{p})(P). Correspondence: Lean compatForEach, findAll, stdAll over that table vs compat.FindAllStringSubmatchIndex, compat.FindAllStringIndex, regexp.FindAllStringIndex",
+				Corpus: corpus, N: c.N(3000, 100000), Gen: c06GenCase, Check: c06Check, Batch: 1000,
+			})
+		}
+		if want("Gm") {
+			c06MethodsLeg(c)
+		}
 	})
 }
